@@ -79,6 +79,14 @@ class FileInfo:
                 if isinstance(st, ast.ClassDef):
                     raw_cls = st
                     process(st.body, raw_cls)
+                elif owner_cls is not None and not isinstance(st, (ast.FunctionDef, ast.AsyncFunctionDef)):
+                    # class-level statements (`x = property(lambda self: helper(self))`): expression-level inlining and canonical forms
+                    from .normalize import Inliner as _Inl, _Canon as _Cn
+                    il = _Inl(model, self.rel, owner_cls)
+                    il.aliases = {}
+                    il._exprs(st, {})
+                    inlined.update(il.inlined)
+                    container[i] = _Cn().visit(st)
                 elif isinstance(st, (ast.FunctionDef,)):
                     nf, inl = normalize_function(model, self.rel, st, owner_cls)
                     inlined.update(inl)
